@@ -60,10 +60,15 @@
      is blocked has no unfinished client), some_thread_can_move (while a client is unfinished some thread can
      take a step that changes the state).  Supporting: join_liveness_partial (the state can change no more
      EXACTLY when every thread is blocked), deadlock_is_permanent.
-     What is NOT proved is (B): that the moves cannot go on for ever without every join returning (the CAS
-     retry loops, the reset/wait loops of workers and producers) - a variant/measure argument under a
-     fairness assumption.  Every such loop iteration needs a claim or a set() by another thread, of which
-     there are finitely many per script operation; this argument is not formalised.
+     (B) is NOT proved.  Proved towards it (fairness half): fair_window_has_effective_move and
+     fair_progress_partial - while a client is unfinished every window of moves that schedules each existing
+     thread at least once contains a state-changing move, so n fair windows contain at least n of them.
+     The missing half is NOT "the number of state-changing moves is bounded": state_changing_moves_unbounded
+     exhibits a reachable state of the repaired code (set() of a producer interleaved with reset() of a worker
+     leaves _state == 0 with the inner Signal set) from which a worker on an empty queue goes pop - reset - pop -
+     wait round and round, 7 state-changing moves back to the SAME state (the busy spin of an idle worker; no
+     join waits for it).  What remains is a ranking with helpful threads (under fairness some thread whose
+     moves matter is scheduled; the moves of spinning workers must leave the rank alone): not formalised.
      - for the sleep/wake handshake as it was before           join_liveness_refuted_original (witness schedule,
        fixes/C10/01-03 the clause is FALSE                        replayed by vm_compute)
      - "started from any threads": when started functions      join_liveness_refuted_nested_start (witness
@@ -75,7 +80,7 @@
    model, i.e. covered by the quantifier "every schedule" of the theorems above. *)
 From Coq Require Import ZArith List Bool Lia Arith.
 From Future Require Import FutureModel FutureRingProofs FutureProofs FutureStep FutureTheorems FutureDestroy FutureLiveness FutureNested FutureExamples
-  FutureLiveDefs FutureLiveMain.
+  FutureLiveDefs FutureLiveMain FutureLiveFair.
 Import ListNotations.
 Local Open Scope Z_scope.
 
@@ -244,6 +249,44 @@ Theorem some_thread_can_move : forall cfg own sched,
 Proof. exact some_thread_moves_lemma. Qed.
 Print Assumptions some_thread_can_move.
 
+(* (B), the fairness half: [effective_moves] counts the moves of a schedule that change the state (= the moves of
+   threads that are not blocked); a window that schedules every existing thread contains one while a client is unfinished *)
+Theorem fair_window_has_effective_move : forall cfg own sched w,
+  wf_cfg cfg own -> c_fixed cfg = true -> c_sigfix cfg = true -> terminating_scripts cfg = true ->
+  0 <= c_min cfg -> 2 <= c_max cfg ->
+  let s := fst (exec cfg sched) in
+  client_unfinished cfg s = true ->
+  (forall t, (t < nthreads s)%nat -> In t (map fst w)) ->
+  (1 <= effective_moves cfg s w)%nat.
+Proof. exact fair_window_lemma. Qed.
+Print Assumptions fair_window_has_effective_move.
+
+Theorem fair_progress_partial : forall cfg own sched ws,
+  wf_cfg cfg own -> c_fixed cfg = true -> c_sigfix cfg = true -> terminating_scripts cfg = true ->
+  0 <= c_min cfg -> 2 <= c_max cfg ->
+  let s := fst (exec cfg sched) in
+  fair_windows cfg s ws ->
+  client_unfinished cfg (fst (exec_from cfg s [] (concat ws))) = true ->
+  (length ws <= effective_moves cfg s (concat ws))%nat.
+Proof. exact fair_progress_stmt. Qed.
+Print Assumptions fair_progress_partial.
+
+Theorem effective_move_changes_the_state : forall cfg s t clk,
+  effective_moves cfg s [(t, clk)] = 1%nat -> fst (step cfg s t clk) <> s.
+Proof. exact effective_move_changes_state. Qed.
+Print Assumptions effective_move_changes_the_state.
+
+(* ... and why the other half is not "the number of state-changing moves is bounded": a worker can spin *)
+Theorem state_changing_moves_unbounded :
+  exists cfg own sched t n,
+    wf_cfg cfg own /\ c_fixed cfg = true /\ c_sigfix cfg = true /\ terminating_scripts cfg = true /\
+    0 <= c_min cfg /\ 2 <= c_max cfg /\
+    let s := fst (exec cfg sched) in
+    (0 < n)%nat /\ effective_moves cfg s (repeat (t, false) n) = n /\
+    fst (exec_from cfg s [] (repeat (t, false) n)) = s.
+Proof. exact spin_cycle_lemma. Qed.
+Print Assumptions state_changing_moves_unbounded.
+
 (* ---------------------------------------------------------------------------------------- *)
 (* non-vacuity: a concrete configuration (code as it is now), a complete fair schedule        *)
 (* ---------------------------------------------------------------------------------------- *)
@@ -325,3 +368,11 @@ Proof. vm_compute. repeat split; reflexivity. Qed.
 Example deadlock_without_workers :
   deadlocked nw_cfg (fst (exec nw_cfg (auto_sched nw_cfg (init nw_cfg) 200))) = true.
 Proof. vm_compute. reflexivity. Qed.
+
+(* fair_window_has_effective_move is about something: the 60-move prefix of the witness schedule (code as it is now) leaves the client
+   unfinished, and a window made of one move of every thread contains a state-changing move *)
+Example ex_fair_window :
+  let s := fst (exec (dl_cfg true) (firstn 60 dl_sched)) in
+  client_unfinished (dl_cfg true) s = true /\
+  (1 <= effective_moves (dl_cfg true) s (map (fun t => (t, false)) (seq 0 (length (st_threads s)))))%nat.
+Proof. vm_compute. split; [reflexivity|lia]. Qed.
